@@ -4,6 +4,22 @@ NOTES = ("Every check re-compiles coq/theories/Properties/<id>.v (theorems over 
          "implementation. See DESIGN.md. known_findings.json lists recorded defects; replays/ is written only on failure.")
 NOT_APPLICABLE = {}
 CLAIMS = {
+    "C10": {
+        "text": "Theorems for every eval oracle, every constructor-argument combination and every word list (26, closed under the global context): from_words of "
+                "int/float/bool/ints/floats returns only values of the declared domain - an integer (never a float of any kind) for int, bounds respected under the exact "
+                "int/float order with NaN excluded whenever a bound is set, list length within size_min/size_max, None/Auto (elements) only when enabled; accepted spellings "
+                "(bool table in any case, None/Auto, 4/2, 1e3, brackets, separators) and fuel-independence of the bracket loop. Tied to converters.py by 100k (quick) / 1.4M "
+                "(thorough) differential cases incl. CPython int(str), float(int) and the mixed comparison.",
+        "note": "Trusted: Coq kernel, extraction, driver, harness, hand-written model of converters.py numeric part; eval is an oracle table recorded from the implementation's own "
+                "eval calls; correct rounding of float(int) is validated by correspondence, not proved.",
+    },
+    "C17": {
+        "text": "PARTIAL by nature: purity is about mutation and identity, which an immutable value model cannot violate. Theorems: the printed form is a function of the "
+                "structural tree only (ids and line numbers never reach the text at any level/width/prefix), so structure-preserving copies print identically. Decided at run "
+                "time on every run by call histories with a write monitor (only 'tmp' may be written on pre-existing objects), snapshots of every long-lived object after every "
+                "call, repeated calls compared, copies checked for identical print/behaviour, disjointness and parent links; every as_str is also compared with the printer model.",
+        "note": "Trusted: the harness's monitor and snapshots (class-level __setattr__ wrappers, no source hook); in-place list mutation is seen by snapshots only.",
+    },
     "C11": {
         "text": "Theorems (all masters / sources, closed under the global context): the fetch result is exactly map (restar (requested ...)) master - alternatives, order, quotes, "
                 "lines kept and the starred set characterised by the declarative predicate 'requested' (None clears; '+' names; last word naming k decides) (C11_selection, "
@@ -57,7 +73,9 @@ CLAIMS = {
     "C16": {
         "text": "PARTIAL proof + correspondence. Theorem: the tokenizer model never yields an internal error and always terminates (fuel never exhausted). "
                 "For parse and the argument interpreter the model's outcome class (Ok/UErr/Crash) is compared with the implementation's exception class on token "
-                "soup and mutated documents; any non-RuntimeError/Sorry exception is a violation unless listed in known_findings.json (F18, F6-attr).",
+                "soup and mutated documents, and for every numeric/bool converter on value texts incl. inf, nan, 1e999, huge integers, empty brackets, stray operators; "
+                "any non-RuntimeError/Sorry exception is a violation unless listed in known_findings.json (F18 .call, F21 digit limit). Theorems: tokenizer never crashes; "
+                "parse never ends in an internal error unless an oracle function (.type/.call construction, eval-based integer) does, and always returns.",
         "note": "Trusted as C02. Converter value texts: C10 stream. eval bombs are not generated (a value like 9**9**9**9 does not return: limitation).",
     },
     "C03": {
